@@ -41,7 +41,8 @@ let parse_op toks =
   | ["pget"; p] -> PGet (n p)
   | ["phas"; p] -> PHasBinding (n p)
   | ["pobs"; p; k; l; h] -> PObserve (n p, kind_of (i k), n l, n h, None)
-  | ["pobsset"; p; k; l; h; q] -> PObserve (n p, kind_of (i k), n l, n h, Some (n q))
+  | ["pobsset"; p; k; l; h; q] -> PObserve (n p, kind_of (i k), n l, n h, Some (false, n q))
+  | ["pobsreset"; p; k; l; h; q] -> PObserve (n p, kind_of (i k), n l, n h, Some (true, n q))
   | ["passign"; p; q] -> PAssignFrom (n p, n q)
   | ["punobs"; h] -> PUnobserve (n h)
   | "pbind" :: p :: m :: e -> let (ex, _) = parse_expr e in PBind (n p, ex, mode_of m)
@@ -99,7 +100,9 @@ let run_file rtl f =
       (* lines starting with '#' are the model's own property checkers: not compared with the implementation *)
       Printf.printf "#chk c02=%d links=%d%s\n" (if check_c02 fn_std w' then 1 else 0) (if check_links w' then 1 else 0)
         (match o with
-         | BevEvalAll e when (match w'.w_trace with EvDone None :: _ -> true | _ -> false) ->
+         | BevEvalAll e when (match w'.w_trace with EvDone None :: _ -> true | _ -> false)
+                             (* observers that write or reset change inputs in the middle of a pass: outside the guarantee *)
+                             && List.for_all (fun tb -> List.for_all (function Some (_, SObs (_, Some _)) -> false | _ -> true) tb.t_slots) w'.w_tables ->
            (match List.assoc_opt e (List.map (fun (a, b) -> (a, b)) w'.w_bevs) with
              | Some id -> Printf.sprintf " c06=%d" (if check_c06_after_evalall fn_std w' id then 1 else 0)
              | None -> "")
